@@ -92,9 +92,17 @@ func (v *Vue) evalSlot(ctx VueContext, node *html.Node, slotScope *SlotScope) ([
 				defer ctx.stack.Pop()
 
 				// If there's a scoped variable name, use it; otherwise use the props directly
-				if scopedVarName != "" {
+				if trimmed := strings.TrimSpace(scopedVarName); strings.HasPrefix(trimmed, "{") && strings.HasSuffix(trimmed, "}") {
+					// Destructured form: v-slot="{ item, index }" binds each named prop
+					for _, name := range strings.Split(trimmed[1:len(trimmed)-1], ",") {
+						if name = strings.TrimSpace(name); name != "" {
+							ctx.stack.Set(name, slotProps[name])
+						}
+					}
+				} else if scopedVarName != "" {
 					ctx.stack.Set(scopedVarName, slotProps)
-				} else {					// Set the slot props directly in the context
+				} else {
+					// Set the slot props directly in the context
 					for k, v := range slotProps {
 						ctx.stack.Set(k, v)
 					}
